@@ -364,13 +364,15 @@ class QCow2Snapshot:
         extra_data = self.qcow2.fh.read(self.header.extra_data_size)
         self.extra = c_qcow2.QCowSnapshotExtraData(extra_data.ljust(len(c_qcow2.QCowSnapshotExtraData), b"\x00"))
 
+        # Extra data beyond the fields we know is part of the extra_data_size bytes we already read
         unknown_extra_size = self.header.extra_data_size - len(c_qcow2.QCowSnapshotExtraData)
-        self.unknown_extra = self.qcow2.fh.read(unknown_extra_size) if unknown_extra_size > 0 else None
+        self.unknown_extra = extra_data[len(c_qcow2.QCowSnapshotExtraData) :] if unknown_extra_size > 0 else None
 
         self.id_str = self.qcow2.fh.read(self.header.id_str_size).decode()
         self.name = self.qcow2.fh.read(self.header.name_size).decode()
 
-        self.entry_size = self.qcow2.fh.tell() - offset
+        # Snapshot table entries are padded to a multiple of 8 bytes
+        self.entry_size = (self.qcow2.fh.tell() - offset + 7) & ~7
 
     def open(self) -> QCow2:
         disk = copy.copy(self.qcow2)
